@@ -41,3 +41,17 @@ Example C10_filter_nonvacuous :
   trel (@epsilon_filter NSR 7 8 [0; 1]) 9 (enc_in 7 8 [MB; MD] ++ [0]) (enc_out 7 8 [MB; MD] ++ [0]) = 0%N.
 Proof. vm_compute. split; reflexivity. Qed.
 Print Assumptions C10_filter_nonvacuous.
+
+(* The product construction (FST._pruned_compose): when the first machine writes a symbol on every arc
+   and the second reads a symbol on every arc -- which is what augmentation establishes -- the product
+   relates x to z with weight  sum over the middle strings y of a(x, y) * b(y, z):  every pair of
+   matching paths contributes exactly once (any commutative semiring). *)
+From GV.proofs Require Import ProductProofs.
+Theorem C10_product_is_relational_composition : forall (S : SR) (M : nat) (V : list nat) (a b : fst_t S) (fuel : nat) (xs zs : list nat),
+  NoDup V ->
+  (forall ar, In ar (tarcs a) -> exists y, tout ar = Some y /\ In y V) ->
+  (forall ar, In ar (tarcs b) -> exists y, tin ar = Some y) ->
+  (forall q, (In q (map fst (tinit b)) \/ In q (map fst (tfinal b)) \/ (exists ar, In ar (tarcs b) /\ (tsrc ar = q \/ tdst ar = q))) -> q < M) ->
+  trel (compose_nf M a b) fuel xs zs = bsum (words_le V fuel) (fun ys => smul (trel a fuel xs ys) (trel b fuel ys zs)).
+Proof. intros; apply compose_nf_relational; assumption. Qed.
+Print Assumptions C10_product_is_relational_composition.
